@@ -159,6 +159,10 @@ def run_property(run, pid, families, prop_file, proof_files, n_quick=210, n_thor
             # consistent with the trace still has a mandatory step enabled, i.e. the implementation is
             # observed blocked where the proved progress theorems say it must move: that scenario is the failing input
             stuck = pid == "C02" and kind in ("Quiet", "NoQuiesce")
+            # C18: a snapshot rejected on the census alone with MORE library goroutines than any compatible model
+            # state has: a goroutine that theorems C18_sup_* say cannot exist after this history - the scenario is the input
+            mm = re.search(r"census_impl=(\d+) census_model_max=(\d+)", l)
+            leak = pid == "C18" and mm is not None and int(mm.group(1)) > int(mm.group(2))
             if own_fail:
                 continue  # reported above with the failing input
             run.violation("corr:%s:%s:%s" % (kind, fam, seed),
@@ -166,8 +170,9 @@ def run_property(run, pid, families, prop_file, proof_files, n_quick=210, n_thor
                                "the implementation's trace at the given event"),
                           "implementation trace rejected by the supervisor model at a %s event (scenario %s/%s)%s" % (
                               kind, fam, seed, " - process crashed / hung" if crash else
-                              " - implementation blocked where the model must progress" if stuck else ""),
-                          no_input_found=not (crash or stuck))
+                              " - implementation blocked where the model must progress" if stuck else
+                              " - %s library goroutines observed, the model allows at most %s here" % mm.groups() if leak else ""),
+                          no_input_found=not (crash or stuck or leak))
     cov = run.coverage
     samples = []
     for s in scens[:2]:
